@@ -107,6 +107,17 @@ ASSUMPTIONS = [
     'trusted: cbmc 6.11.0, goto-instrument dfcc, CaDiCaL, clang 14',
 ]
 
+# assumptions that concern one property only (appended to ASSUMPTIONS in its evidence)
+EXTRA_ASSUMPTIONS = {
+    'C17': [
+        'A-REF: the shim keeps the observed cells of an unordered_map (and the scratch cell) allocated across '
+        'erase/clear, so a C++ reference into a map node that the code erases and then READS is not reported: '
+        'dangling references into erased map nodes are outside the STL-PRE assertions (iterators are covered by the '
+        'cursor model; references are not).  Seeded change s17 (UndirectedMultigraph::removeMultiedge reads '
+        'currentMultiplicity after edgeLabels.erase) is therefore NOT detected',
+    ],
+}
+
 EXTRACTION_DROPS = [
     'templates -> explicit instantiations VLabel / NoLabel / unsigned (multiplicity) / double (weight)',
     'this -> first parameter; references -> pointers; overloads -> suffix by arity',
